@@ -474,7 +474,7 @@ fn gap_hit(cls: CClass, g: Gap) -> Option<u8> {
     }
 }
 
-fn inject(stmts: &[H], cls: CClass, r: &mut Rng, every: bool) -> (String, usize) {
+pub(crate) fn inject(stmts: &[H], cls: CClass, r: &mut Rng, every: bool) -> (String, usize) {
     inject_two(stmts, cls, None, r, every)
 }
 
@@ -506,11 +506,11 @@ fn inject_two(stmts: &[H], cls: CClass, cls2: Option<CClass>, r: &mut Rng, every
                 let c = c.trim_end().to_string();
                 Some(match kind {
                     1 => format!("\n  {}\n  ", c),
-                    2 => format!(" {}\n  ", c),
+                    2 => format!("{}{}\n  ", ["", " ", "  ", "\t"][rr.below(4)], c),
                     3 => format!("\n  {}\n", c),
                     4 => {
                         pending_close_newline = true;
-                        format!(" {}", c)
+                        format!("{}{}", ["", " ", "  ", "\t"][rr.below(4)], c)
                     }
                     5 => format!("\n  {}\n", c),
                     6 => format!("{}\n", c),
@@ -529,7 +529,9 @@ fn inject_two(stmts: &[H], cls: CClass, cls2: Option<CClass>, r: &mut Rng, every
             }
             CClass::P2StmtEol if every || rr.chance(1, 2) => {
                 n += 1;
-                text = format!("{}  // eol{}_{}", text, si, n);
+                // the gap before an end-of-line comment is free: none at all, one space, two, a tab
+                let gap = ["", " ", "  ", "\t", "   "][rr.below(5)];
+                text = format!("{}{}// eol{}_{}", text, gap, si, n);
             }
             _ => {}
         }
@@ -859,9 +861,12 @@ pub fn run(which: &str, ctx: &Ctx, sink: &mut Sink) {
     }
 }
 
-fn fixed_programs() -> Vec<Vec<H>> {
+pub(crate) fn fixed_programs() -> Vec<Vec<H>> {
     let n = |x: f64| H::Num(F(x));
     vec![
+        // containers without items (a comment is then the only thing between the brackets)
+        vec![assign("e", H::List(vec![])), assign("r0", H::Rec(vec![])), call(id("f"), vec![H::Rec(vec![]), H::List(vec![])])],
+        vec![assign("nest", H::List(vec![H::List(vec![]), H::Rec(vec![]), H::Rec(vec![(Key::Static("k".into()), H::List(vec![]))])]))],
         vec![assign("a", H::List(vec![n(1.0), n(2.0), n(3.0)]))],
         vec![assign("r", H::Rec(vec![(Key::Static("k".into()), n(1.0)), (Key::Static("m".into()), st("v"))]))],
         vec![assign("d", H::Do(vec![assign("t", n(1.0)), assign("u", bin(Op::Add, id("t"), n(2.0)))], Box::new(bin(Op::Mul, id("u"), n(3.0)))))],
